@@ -515,10 +515,19 @@ def gen_reachable(cx):
     return sorted(p for p in seen if "::grammar::generated::" not in p)
 
 
+# constant-index accesses that are safe only by a fact established outside the function (guards.py verdict `open`)
+EXTERNAL_INDEX = {
+    "Choice": "choices[0] under len() < 2: a Choice has at least one alternative by the grammar of grammars (Choice = choices:Sequence {'|' choices:Sequence})",
+    "generate_override_rule": "fields[0]: the caller tests fields.len() == 1 (proved locally there: CodegenRule::generate_code)",
+}
+
+
 def check_panic(cx, chk):
+    from . import guards
     cg = cx.codegen
     n = 0
     fns = gen_reachable(cx)
+    G = guards.Guards(cx, cg)
     has_unsafe = any(u["user"] and not u["span"]["exp"] and "::grammar::generated::" not in u["fn"] for u in cg.j["unsafe_blocks"])
     for p in fns:
         b = cx.body(cg, p)
@@ -549,6 +558,21 @@ def check_panic(cx, chk):
                 except Exception:
                     pass
             tag = "%s %s" % (fkey, kind)
+            if kind in IDX and reason:
+                verdict = G.verdicts(p).get(i)
+                if verdict == "proved":
+                    chk.ok("C15.panic", tag, {"fn": fkey, "kind": kind, "reason": reason, "proved": "the length tests made before the access exclude every out-of-range length"})
+                    continue
+                if verdict and verdict.startswith("open"):
+                    ext = [why for k_, why in EXTERNAL_INDEX.items() if k_ in fkey + " " + p]
+                    if ext:
+                        chk.ok("C15.panic", tag, {"fn": fkey, "kind": kind, "reason": ext[0], "local_verdict": verdict})
+                    else:
+                        chk.violation("C15.panic", tag + " guard",
+                                      "constant-index access whose guard does not exclude an out-of-range length: with everything %s tests before it, a "
+                                      "collection of length %s still reaches the access - the compiler panics instead of returning an error" % (fkey, verdict[7:-1]),
+                                      cx.site(b, i), {"detail": detail})
+                    continue
             if reason:
                 chk.ok("C15.panic", tag, {"fn": fkey, "kind": kind, "reason": reason})
             else:
